@@ -134,6 +134,26 @@ int main() {
       alg.freeAssociatedObjects();
     }
   }
+  {
+    // run(): every user constraint violated by the final positions must be in the unsatisfiable-constraint lists -- also when two of them
+    // speak about the same pair of nodes
+    vpsc::Rectangles rs; rs.push_back(new vpsc::Rectangle(0, 10, 0, 10)); rs.push_back(new vpsc::Rectangle(100, 110, 50, 60));
+    std::vector<cola::Edge> es; es.push_back(cola::Edge(0, 1));
+    CompoundConstraints ccs;
+    AlignmentConstraint *al = new AlignmentConstraint(vpsc::XDIM); al->addShape(0, 0); al->addShape(1, 0); ccs.push_back(al);
+    const double gaps[2] = { 40, 15 };
+    for (int k = 0; k < 2; ++k) ccs.push_back(new SeparationConstraint(vpsc::XDIM, 0, 1, gaps[k], false));
+    ConstrainedFDLayout alg(rs, es, 50); alg.setConstraints(ccs);
+    UnsatisfiableConstraintInfos ux, uy; alg.setUnsatisfiableConstraintInfo(&ux, &uy);
+    alg.run();
+    double x0 = rs[0]->getCentreX(), x1 = rs[1]->getCentreX();
+    for (int k = 0; k < 2; ++k) if (!(x0 + gaps[k] <= x1 + 1e-4)) {
+      bool reported = false;
+      for (size_t i = 0; i < ux.size(); ++i) if (ux[i]->leftVarIndex == 0 && ux[i]->rightVarIndex == 1 && ux[i]->separation == gaps[k]) reported = true;
+      if (!reported) { printf("run(): x0 + %g <= x1 is violated by the result (x0=%g, x1=%g) and is not in the unsatisfiable-constraint list (%zu entries)\n", gaps[k], x0, x1, ux.size()); bad++; }
+    }
+    alg.freeAssociatedObjects();
+  }
   if (bad) { printf("REPRODUCED: %d generated constraint(s) / projected coordinate(s) differ from the user constraint\n", bad); return 1; }
   printf("not reproduced\n"); return 0;
 }
@@ -358,10 +378,11 @@ def jobs(tier):
             "  cola::UnsatisfiableConstraintInfo *p = (cola::UnsatisfiableConstraintInfo *)malloc(sizeof(cola::UnsatisfiableConstraintInfo)); __CPROVER_assume(p != 0);\n"
             "  p->leftVarIndex = t.leftVarIndex; p->rightVarIndex = t.rightVarIndex; p->separation = t.separation; p->equality = t.equality; p->cc = t.cc; return p; }\n")
     cub_cxx = (base + vpsc_part + pre({}) + 'extern "C" void *malloc(size_t);\nnamespace cola {\n' + uctor.text + "\n}\n" + NEWU +
-               "namespace cola {\nstatic void verif_checkUnsat_body(vpsc::Constraints::const_iterator c, UnsatisfiableConstraintInfos* unsatisfiable)\n" + cu_body_text + "\n}\n"
+               "namespace cola {\n/*@CLOSURE@*/\nstatic void verif_checkUnsat_body(vpsc::Constraints::const_iterator c, UnsatisfiableConstraintInfos* unsatisfiable)\n" + cu_body_text + "\n}\n"
                'extern "C" void w_unsat_body(void *slot, void *out) { cola::verif_checkUnsat_body((vpsc::Constraint *const *)slot, (cola::UnsatisfiableConstraintInfos *)out); }\n')
     js.append(Job("checkUnsatisfiable_body", "U", spec, "h_unsat_body", cxx=cub_cxx, enforce="w_unsat_body", defines=["JOB_unsat_body"], slices=[cu, cu_loop, uctor], replay=replay_c07,
-                  flags=["--object-bits", "12", "--sat-solver", "cadical"], backend="sat:cadical",
+                  flags=["--object-bits", "12", "--sat-solver", "cadical"], backend="sat:cadical", closure_file=CF_, unwind=6,
+                  note="report list with up to 3 earlier entries (capacity 4); the body has no loop of its own -- the unwinding bound only matters if a change under test adds one",
                   domain="one arbitrary constraint, flagged or not, every gap (all doubles), variable ids >= 0", expect=[r'w_unsat_body\.postcondition']))
     cus_cxx = (base + 'extern "C" { void *verif_g_cs, *verif_g_out; void w_visit(void *, void *); }\n' + vpsc_part + pre({}) +
                "namespace cola {\nvoid verif_checkUnsat_shell()\n{ const vpsc::Constraints& cs = *(const vpsc::Constraints *)verif_g_cs; "
